@@ -837,8 +837,8 @@ def default_search_predicate(run, f, r, rule="C20.R1"):
         wrong = [k for k, v in verdicts.items() if v != (k >= 2)]
         if wrong:
             k = wrong[0]
-            what = ("an image HDU with %d axes (a cube, which _load reduces to its first plane) is passed over: a later extension is taken instead of the first HDU "
-                    "holding image data" % k) if k >= 2 else ("an HDU with %d axes (%s) is taken as the image" % (k, "an empty primary HDU" if k == 0 else "a 1-D array"))
+            what = ("an image HDU with %d axes (%s) is passed over: a later extension is taken instead of the first HDU "
+                    "holding image data" % (k, "a plain 2-D image" if k == 2 else "a cube, which _load reduces to its first plane")) if k >= 2 else ("an HDU with %d axes (%s) is taken as the image" % (k, "an empty primary HDU" if k == 0 else "a 1-D array"))
             run.violated(rule, f, e.node, "default selection: %s" % what, kind="search-predicate", dims=wrong)
         else:
             run.holds(rule, f, e.node, "default selection stops at the first HDU with at least two axes (checked for 0..5 axes)")
